@@ -105,6 +105,7 @@ pub const MANAGED_ENV: &[&str] = &[
     "XDG_CACHE_HOME",
     "XDG_STATE_HOME",
     "XDG_RUNTIME_DIR",
+    "TMPDIR",
     "SUDO_UID",
     "SUDO_GID",
 ];
@@ -364,6 +365,7 @@ pub fn run_seq(pc: &PropCfg, knobs: &Knobs, env: &Env, mut src: Source, stats: &
     set_env(env);
     let _ = exec::ENTRY_MISMATCH.with(|m| m.borrow_mut().take());
     let _ = exec::FOLLOW_TWICE.with(|m| m.borrow_mut().take());
+    let _ = exec::MACRO_TWICE.with(|m| m.borrow_mut().take());
     let hk = hooks::install_seq(knobs);
     let fs = Memfs::new();
     let wfs: Option<Vfs> = if pc.wrapper { Some(Vfs::memfs()) } else { None };
@@ -518,7 +520,8 @@ pub fn run_seq(pc: &PropCfg, knobs: &Knobs, env: &Env, mut src: Source, stats: &
         let mut model_ok = true;
         // (judged on the observable tree even when the internal indexes disagree: a damaged index
         // shows up here as soon as a listing or query observes it)
-        if !snap.poisoned && !matches!(out, Outcome::Panic(_)) {
+        // (a panic is an outcome like any other for the assert macros: it is what they are for)
+        if !snap.poisoned && (!matches!(out, Outcome::Panic(_)) || matches!(op, Op::Macro { .. })) {
             if let Err((oracle, what, detail)) = judge(&m, &op, &out, &m.t, &real, &pc.strict) {
                 model_ok = false;
                 step_violations.push(Violation {
@@ -539,6 +542,16 @@ pub fn run_seq(pc: &PropCfg, knobs: &Knobs, env: &Env, mut src: Source, stats: &
                 step,
                 sig: format!("wrapper-entry|{}", op.label()),
                 detail: format!("{:?}: {}", op, d.chars().take(500).collect::<String>()),
+            });
+        }
+        // C20: a macro evaluates its arguments once
+        if let Some(d) = exec::MACRO_TWICE.with(|m| m.borrow_mut().take()) {
+            step_violations.push(Violation {
+                property: "C20".into(),
+                oracle: "macro-argument-evaluation".into(),
+                step,
+                sig: format!("macro-arg-evals|{}", op.label()),
+                detail: format!("{:?}: {}", op, d),
             });
         }
         // C10: follow(true) swaps path and alt exactly once, also on a copy of the entry
